@@ -88,7 +88,7 @@ def kminus(a, b):
 
 class St:
     """iters: key → (H, N);  pend: elem id → kinds;  env: name → value;  leaked: frozenset((id, kinds))"""
-    __slots__ = ("iters", "pend", "env", "leaked", "nc")
+    __slots__ = ("iters", "pend", "env", "leaked", "nc", "nodes")
 
     def __init__(self):
         self.iters = {}
@@ -96,6 +96,7 @@ class St:
         self.env = {}
         self.leaked = frozenset()
         self.nc = frozenset()        # elements / iterators known to contain no comment (has_comment(..) was false)
+        self.nodes = frozenset()     # consumed elements known (on this path) to be nodes
 
     def copy(self):
         s = St()
@@ -104,11 +105,12 @@ class St:
         s.env = dict(self.env)
         s.leaked = self.leaked
         s.nc = self.nc
+        s.nodes = self.nodes
         return s
 
     def same(self, o):
         return (o is not None and self.iters == o.iters and self.pend == o.pend and self.env == o.env
-                and self.leaked == o.leaked and self.nc == o.nc)
+                and self.leaked == o.leaked and self.nc == o.nc and self.nodes == o.nodes)
 
 
 def join(a, b):
@@ -133,6 +135,7 @@ def join(a, b):
             s.env[k] = UNK
     s.leaked = a.leaked | b.leaked
     s.nc = a.nc & b.nc
+    s.nodes = a.nodes & b.nodes
     return s
 
 
@@ -194,10 +197,11 @@ class Interp:
         self.consumed_order = []      # ids in first-consumption order
         self.closures = {}            # cid → (node, fnpath)
         self.havocs = []              # (fn, line, what)
-        self.node_elems = set()       # consumed elements known to be nodes (to_node().unwrap(), Node(..) pattern)
         self.sites = {}               # (site fn, node id) → {line, kinds}: every consuming call evaluated
         self.benign = {}              # (site fn, node id) → droppable kinds dropped there
         self.notes = []
+        self.ncons = {}               # iterator key → how often it advanced (to invalidate peeks held by callers)
+        self.unsummarised = set()     # helpers called without being inlined (recursion): judged from an unknown state
 
     # ------------------------------------------------------------------ iterator state
     def norm(self, S, key):
@@ -227,6 +231,7 @@ class Interp:
         return self.norm(S, key)
 
     def forget_peeks(self, S, key):
+        self.ncons[key] = self.ncons.get(key, 0) + 1      # the iterator moved (or was reset): peeked values are stale
         for n, v in list(S.env.items()):
             if v[0] == "peek" and v[1] == key:
                 S.env[n] = UNK
@@ -256,7 +261,9 @@ class Interp:
             S.iters[key] = (frozenset(tr | N), N, L)
         else:
             if all((k in self.m.nodek) for k in H):
-                self.node_elems.add(eid)
+                S.nodes = S.nodes | {eid}
+            else:
+                S.nodes = S.nodes - {eid}
             S.iters[key] = (self.top, self.top, eid)
         self.forget_peeks(S, key)
         return ("elem", eid, "next")
@@ -264,7 +271,7 @@ class Interp:
     def new_iter(self, S, e, fr, owned=True):
         key = ("it", fr.ctx, id(e))
         if key in S.iters and owned:
-            self.deaths.setdefault(key, []).append((S.iters[key][0], S.iters[key][2]))
+            self.kill(S, key)
         S.iters[key] = (self.top, self.top, None)
         if key not in self.iterinfo:
             self.iterinfo[key] = {"fn": fr.fn, "line": e[1] if isinstance(e[1], int) else 0, "owned": owned,
@@ -277,7 +284,8 @@ class Interp:
             H = S.iters[key][0]
             if key in S.nc:
                 H = kminus(H, self.m.comments)
-            self.deaths.setdefault(key, []).append((H, S.iters[key][2]))
+            L = S.iters[key][2]
+            self.deaths.setdefault(key, []).append((H, L is not None and L in S.nodes))
 
     def havoc(self, S, key, fr, line, what):
         if key in S.iters:
@@ -325,7 +333,7 @@ class Interp:
             ok = self.refine_elem(S, eid, self.m.nodek, False)
         elif flag == "node":
             ok = self.refine_elem(S, eid, self.m.nodek, True)
-            self.node_elems.add(eid)
+            S.nodes = S.nodes | {eid}
         return ("elem", eid, None), ok
 
     # ------------------------------------------------------------------ patterns
@@ -446,7 +454,7 @@ class Interp:
                 elif ctor == "dora_parser::ast::SyntaxElement::Node":
                     if not self.refine_elem(S, v[1], self.m.nodek, True):
                         return False
-                    self.node_elems.add(v[1])
+                    S.nodes = S.nodes | {v[1]}
                 for q in subs:
                     if not self.bind(q, ("elem", v[1], None), S, fr):
                         return False
@@ -994,7 +1002,7 @@ class Interp:
         if cv[0] == "closure":
             return self.apply_closure(cv[1], vals, S, fr, e)
         if cv[0] == "fnref" and cv[1] in self.m.fns:
-            return self.call_values(cv[1], vals, S, fr, line, e)
+            return self.call_values(cv[1], vals, S, fr, e[1], e)
         for v in vals:
             if v[0] == "iter":
                 self.havoc(S, v[1], fr, line, "call through an unknown closure value")
@@ -1142,6 +1150,7 @@ class Interp:
             has_iter_param = any(is_iter_ty(ty) for (_p, ty) in hb["params"])
             if has_iter_param or any(v[0] == "iter" for v in vals):
                 if path in fr.stack or len(fr.stack) > 14:
+                    self.unsummarised.add(path)
                     for v in vals:
                         if v[0] == "iter":
                             self.havoc(S, v[1], fr, line, "recursive call of %s" % path)
@@ -1164,6 +1173,7 @@ class Interp:
 
     def inline(self, path, hb, vals, S, fr, e):
         saved_env = S.env
+        before = dict(self.ncons)
         S.env = {}
         nf = Frame(path, fr.ctx + (id(e),), fr)
         for i, (pat, ty) in enumerate(hb["params"]):
@@ -1173,13 +1183,15 @@ class Interp:
             self.bind(pat, v, S, nf)
         v, out = self.eval(hb["body"], S, nf)
         res = [(v, out)] + nf.rets
+        moved = {k for k, n in self.ncons.items() if before.get(k) != n}
+        back = {n: (UNK if (x[0] == "peek" and x[1] in moved) else x) for n, x in saved_env.items()}
         for (_v, s) in res:
             if s is not None:
-                s.env = dict(saved_env)
+                s.env = dict(back)
             if _v[0] == "bsplit":
                 for x in (_v[1], _v[2]):
                     if x is not None:
-                        x.env = dict(saved_env)
+                        x.env = dict(back)
         return self.merge_branches(res)
 
     def apply_closure(self, cid, vals, S, fr, e):
